@@ -26,6 +26,8 @@ def from_abs(a):
 
 
 def run(ctx):
+    from rules import shared
+    ctx.include('jd_tables', shared.jd_tables)           # civil date <-> day number per (year, month) (shared, cached per source hash)
     I = ctx.interp(fuel=30000000)
     t = T(I)
     p = ctx.prog
@@ -62,6 +64,8 @@ def run(ctx):
 
     # comparator decision table over all order types of (day, hour, minute, second)
     grid = [(2023, 1, d, h, mi, s) for d in (30, 31) for h in (5, 6) for mi in (7, 8) for s in (9, 10)]
+    # extreme clock fields and days that differ only in month / only in year (the day comparator is part of the instant comparator)
+    grid += [(y, m, 5, h, mi, s) for y in (2023, 2024) for m in (3, 7) for (h, mi, s) in ((0, 0, 0), (23, 59, 59), (0, 59, 0), (23, 0, 59))]
 
     def cmp3(ab):
         A, B = st(ab[0]), st(ab[1])
